@@ -47,6 +47,23 @@ Inductive body :=
 
 Record response := { r_status : Z; r_body : body }.
 
+(* the context handed to the call *)
+Inductive ctx_state := CtxLive | CtxCancelledBefore | CtxCancelledDuring.
+
+(* everything outside the package that a call meets: limiter, context, the client's redirect
+   policy, the redirect answers the server gives before its final response *)
+Record world := {
+  w_lim : limiter;
+  w_ctx : ctx_state;
+  w_follow : bool;          (* false: Client.CheckRedirect returns http.ErrUseLastResponse *)
+  w_hops : list str;        (* absolute Location values of successive 3xx answers *)
+  w_hop_status : Z;         (* the 3xx status of those answers *)
+  w_resp : response }.      (* the final answer *)
+
+Definition plain_world (lim : limiter) (resp : response) : world :=
+  {| w_lim := lim; w_ctx := CtxLive; w_follow := true; w_hops := []; w_hop_status := 302;
+     w_resp := resp |}.
+
 (* the error classes the harness can observe *)
 Inductive err_class := CNone | CNotFound | CForbidden | CGone | CURITooLong | CUnexpected | COther.
 
